@@ -344,7 +344,7 @@ func c05Units(tier string) []*Unit {
 		if tier == "thorough" {
 			d = 5
 		}
-		us = append(us, c05NameContentBoundaryUnit(d, false), c05NameContentBoundaryUnit(d+1, true), c05StatusEntriesUnit(d+1))
+		us = append(us, c05NameContentBoundaryUnit(d, false), c05NameContentBoundaryUnit(d+1, true), c05StatusEntriesUnit(d+1), c05SubdirectoryUnit("checksum", d+1), c05SubdirectoryUnit("timestamp", d+1))
 	}
 	for _, sh := range shapes {
 		sh := sh
@@ -622,6 +622,72 @@ func c05StatusEntriesUnit(depth int) *Unit {
 				os.WriteFile(filepath.Join(dir, "a.flag"), nil, 0o644)
 				os.WriteFile(filepath.Join(dir, "b.flag"), nil, 0o644)
 				return c05NoModel{}
+			}}
+		return runHist(cfg, dir, deadline)
+	}}
+}
+
+// The project run from its root and from a subdirectory (Task finds the Taskfile by walking
+// up): there is one record of the last successful run, whichever directory the user was in.
+// Histories over {edit the source, run at the root, run in sub/}.
+func c05SubdirectoryUnit(method string, depth int) *Unit {
+	name := fmt.Sprintf("hist/%s/run-from-root-and-from-a-subdirectory/depth%d", method, depth)
+	tf := "version: '3'\ntasks:\n  build:\n    method: " + method + "\n    sources: ['{{.ROOT_DIR}}/in.txt']\n    cmds:\n      - 'echo run >> {{.ROOT_DIR}}/trace.log'\n"
+	fp := func(dir string) string {
+		p := filepath.Join(dir, "in.txt")
+		if method == "checksum" {
+			b, _ := os.ReadFile(p)
+			return string(b)
+		}
+		st, _ := os.Stat(p)
+		return fmt.Sprint(st.ModTime().UnixNano())
+	}
+	evs := []hEvent{{Name: "edit", Apply: func(dir string, _ hModel, _ []string) []vlab.Violation {
+		toggle(filepath.Join(dir, "in.txt"))
+		return nil
+	}}}
+	for _, where := range []string{"root", "sub"} {
+		where := where
+		evs = append(evs, hEvent{Name: "run-in-" + where, Apply: func(dir string, hm hModel, hist []string) []vlab.Violation {
+			m := hm.(*c05TreeModel)
+			var out []vlab.Violation
+			cur := fp(dir)
+			before, _ := os.ReadFile(filepath.Join(dir, "trace.log"))
+			cwd := dir
+			if where == "sub" {
+				cwd = filepath.Join(dir, "sub")
+			}
+			_, se, rc := RunCLI(cwd, nil, "", "build")
+			after, _ := os.ReadFile(filepath.Join(dir, "trace.log"))
+			ran := len(after) > len(before)
+			wantRun := m.Last == "" || m.Last != cur
+			tag := method + ":run_from_subdirectory"
+			switch {
+			case rc != 0:
+				out = append(out, vlab.V("C05", "run_failed", tag, fmt.Sprintf("status %d (%s) after %v", rc, firstN(se, 120), hist)))
+			case ran && !wantRun:
+				out = append(out, vlab.V("C05", "not_idempotent", tag, fmt.Sprintf("the commands ran again (in %s) although the source is unchanged since the last successful run (history %v)", where, hist)))
+			case !ran && wantRun:
+				out = append(out, vlab.V("C05", "change_not_detected", tag, fmt.Sprintf("reported up to date (in %s) although the source changed since the last successful run (history %v)", where, hist)))
+			}
+			if _, err := os.Stat(filepath.Join(dir, "sub", ".task")); err == nil {
+				out = append(out, vlab.V("C05", "state_outside_project_state_dir", tag, fmt.Sprintf("a .task directory appeared in the subdirectory the user happened to be in (history %v)", hist)))
+			}
+			if rc == 0 && ran {
+				m.Last = cur
+			}
+			return out
+		}})
+	}
+	return &Unit{Name: name, Weight: 2, Custom: func(u *Unit, dir string, deadline time.Time) *vlab.UnitResult {
+		cfg := hConfig{Name: name, Depth: depth, Events: evs,
+			Ignore: func(p string) bool { return p == "trace.log" },
+			Init: func(dir string) hModel {
+				os.MkdirAll(filepath.Join(dir, "sub"), 0o755)
+				os.WriteFile(filepath.Join(dir, "Taskfile.yml"), []byte(tf), 0o644)
+				os.WriteFile(filepath.Join(dir, "in.txt"), []byte("1\n"), 0o644)
+				os.WriteFile(filepath.Join(dir, "sub", ".keep"), nil, 0o644)
+				return &c05TreeModel{}
 			}}
 		return runHist(cfg, dir, deadline)
 	}}
